@@ -242,7 +242,7 @@ def parse_segment(text, version=None, encoding_chars=None, validation_level=None
     encoding_chars = _get_encoding_chars(encoding_chars, version)
     validation_level = _get_validation_level(validation_level)
 
-    segment_name = text[:3]
+    segment_name = text[:3].upper()  # the segment takes the upper-case form of its name: the header segment is recognised in any letter case
     text = text[4:] if segment_name != 'MSH' else text[3:]
     segment = Segment(segment_name, version=version, validation_level=validation_level,
                       reference=reference)
